@@ -316,6 +316,22 @@ def fam_builder(seed, big):
                 [["env", "A", "mine"], ["setenv_proc", "A", "other"]]):
         for t in ("capture", "join", "popen"):
             add(ops, t)
+    # the value asked for equals the parent's at the time of the call, and the parent's changes before the launch (a
+    # template built once, a guard restoring a temporary variable): what was asked for is what the child gets
+    for ops in ([["setenv_proc", "A", "one"], ["env", "A", "one"], ["setenv_proc", "A", "uno"]],
+                [["setenv_proc", "A", "one"], ["setenv_proc", "B", "two"], ["env_extend", [["A", "one"], ["B", "two"]]],
+                 ["setenv_proc", "A", "uno"], ["setenv_proc", "B", "dos"]],
+                [["setenv_proc", "A", "one"], ["env", "A", "one"], ["clone"], ["setenv_proc", "A", "uno"], ["arg", "x"]]):
+        for t in ("capture", "join"):
+            add(ops, t)
+    # names and values that are not valid UTF-8 (legal on Unix), set through the builder or merely inherited next to an
+    # unrelated edit: they reach the child byte for byte
+    H = "\u0001hex:"
+    for ops in ([["env", "RAWV", H + "636166e9ff"]], [["env_extend", [[H + "4eff", "v"], ["K", H + "fe"]]]],
+                [["setenv_proc", "A", H + "e9e8"], ["env", "A", H + "e9e8"], ["env", "B", "1"]],
+                [["env", "A", H + "ff"], ["clone"], ["env", "B", H + "fe"]]):
+        for t in ("capture", "join"):
+            add(ops, t)
     for sh in ("true", "true a  b 'c d'", "exit 0", "true \"$HOME\" ; true", "", "true\nnewline", "echo 'it''s' >/dev/null"):
         add([], "join", shell=sh)
         add([["arg", "extra arg"], ["env", "A", "1"]], "capture", shell=sh)
@@ -349,4 +365,15 @@ def fam_builder_env(seed, big):
         out.append({"id": "be%d" % j, "kind": "builder", "class": "builder-env", "is_shell": False, "shell": "",
                     "ops": [rng.choice(ops) for _ in range(n)], "term": rng.choice(["capture", "join"]),
                     "orig_term": "capture", "detached": False})
+    # the process environment changes between the builder calls and the launch; names / values that are not UTF-8
+    H = "\u0001hex:"
+    for j, ops2 in enumerate([
+            [["setenv_proc", "A", "one"], ["env", "A", "one"], ["setenv_proc", "A", "uno"]],
+            [["setenv_proc", "A", "one"], ["setenv_proc", "B", "two"], ["env_extend", [["A", "one"], ["B", "two"]]],
+             ["setenv_proc", "A", "uno"], ["setenv_proc", "B", "dos"]],
+            [["env_remove", "NO_SUCH_VAR"], ["setenv_proc", "NO_SUCH_VAR", "leak"]],
+            [["env", "RAWV", H + "636166e9ff"]], [["env_extend", [[H + "4eff", "v"], ["K", H + "fe"]]]],
+            [["setenv_proc", "A", H + "e9e8"], ["env", "A", H + "e9e8"], ["env", "B", "1"]]]):
+        out.append({"id": "bex%d" % j, "kind": "builder", "class": "builder-env", "is_shell": False, "shell": "",
+                    "ops": ops2, "term": "capture", "orig_term": "capture", "detached": False})
     return out
